@@ -25,10 +25,14 @@ def build(spec):
     from numba_scfg.core.datastructures.basic_block import (
         BasicBlock, SyntheticBranch, SyntheticTail, SyntheticHead, RegionBlock)
 
-    def region(name, jt, be, depth):
+    def region(name, jt, be, depth, latch=False):
         h, x = name + "_h", name + "_x"
         if depth > 1:
             inner_x = region(x, jt, be, depth - 1)
+        elif latch:
+            # as restructure_loop leaves it: the exiting block is the latch, its last target the declared
+            # back edge to the header, which the region block's targets do not list
+            inner_x = BasicBlock(name=x, _jump_targets=tuple(jt) + (h,), backedges=tuple(be) + (h,))
         else:
             inner_x = BasicBlock(name=x, _jump_targets=tuple(jt), backedges=tuple(be))
         sub = SCFG({h: BasicBlock(name=h, _jump_targets=(x,)), x: inner_x})
@@ -41,8 +45,8 @@ def build(spec):
 
     g = {}
     for name, jt, be, kind in spec:
-        if kind in ("region", "region2"):
-            g[name] = region(name, jt, be, 2 if kind == "region2" else 1)
+        if kind in ("region", "region2", "loopregion"):
+            g[name] = region(name, jt, be, 2 if kind == "region2" else 1, latch=(kind == "loopregion"))
         elif kind == "branch":
             tbl = {i: t for i, t in enumerate(jt)}
             g[name] = SyntheticHead(name=name, _jump_targets=tuple(jt), backedges=tuple(be),
@@ -77,6 +81,24 @@ def mirror_faults(sc, relevant):
 
     rec(sc)
     return bad
+
+
+def exiting_rest(sc, relevant):
+    """For every region: the targets of its exiting block (recursively) that are none of `relevant`, in order."""
+    from numba_scfg.core.datastructures.basic_block import RegionBlock
+
+    out = {}
+
+    def rec(g):
+        for name, b in g.graph.items():
+            if isinstance(b, RegionBlock):
+                x = b.subregion.graph.get(b.exiting)
+                out[name] = None if x is None else (tuple(t for t in x._jump_targets if t not in relevant),
+                                                    tuple(t for t in x.backedges if t not in relevant))
+                rec(b.subregion)
+
+    rec(sc)
+    return out
 
 
 def graph_rows(tag, sc, ids, vids):
@@ -126,6 +148,8 @@ def export_case(case):
     vids = {"__scfg_control_var_7__": 1, "__scfg_control_var_0__": 2, "__scfg_control_var_8__": 3}
     rows = [[114]] + graph_rows(21, sc, ids, vids)
     L = lambda xs: [len(xs)] + [ids[x] for x in xs]  # noqa: E731
+    rel0 = (set(op[3]) | {op[1]}) if op[0] in ("ib", "cb") else set()
+    rest_before = exiting_rest(sc, rel0 | set(pool)) if rel0 else {}
     status = 0
     extra = []
     with Recorder() as rec:
@@ -175,6 +199,9 @@ def export_case(case):
     if status == 0 and op[0] in ("ib", "cb") and op[3]:
         # (with S empty the new block is appended to the region block only; nothing is rerouted)
         mirror = mirror_faults(sc, set(op[3]) | {op[1]} | set(r[3] for r in reqs if r[1] == "block"))
+        # ... and whatever else the exiting block jumped to (a latch's back edge to its header) is still there
+        rest_after = exiting_rest(sc, rel0 | set(pool))
+        mirror += [n for n, v in rest_before.items() if n in rest_after and rest_after[n] != v and n not in mirror]
     return text, {"status": status, "op": op[0], "mirror": mirror}
 
 
@@ -210,13 +237,13 @@ def cases_for(tier, seed):
         kinds = ["basic"] * len(combo)
         for variant in range(2):
             if variant == 1:
-                kinds = [rng.choice(["basic", "branch", "tail", "region", "region2"]) if jt else "basic" for jt in combo]
+                kinds = [rng.choice(["basic", "branch", "tail", "region", "region2", "loopregion"]) if jt else "basic" for jt in combo]
                 if all(k == "basic" for k in kinds):
                     continue
             spec = []
             for k, jt, kind in zip(keys, combo, kinds):
                 be = tuple(t for t in dict.fromkeys(jt) if rng.random() < 0.12)
-                if kind in ("branch", "region", "region2") and len(set(jt)) != len(jt):
+                if kind in ("branch", "region", "region2", "loopregion") and len(set(jt)) != len(jt):
                     kind = "basic"  # a table needs distinct targets; update_exiting renames every occurrence
                                     # of a target while the primitives rename the first (regions mirror blocks
                                     # with distinct successors)
